@@ -39,7 +39,7 @@ SHARDS = 16
 # is being used for sensitivity runs.
 REPO_ROOT = os.environ.get("VERIF_REPO") or "/repo"
 PY = sys.executable
-RUN_WALL_S = 60  # per-run watchdog (a normal run takes milliseconds)
+RUN_WALL_S = 120  # per-run watchdog (the slowest legitimate run measured under full machine load: 8 s; evidence reports it)
 
 
 def load_prop(prop: str):
@@ -140,8 +140,10 @@ def cmd_shard(prop: str, tier: str, verif_seed: int, shard: int, out: str) -> in
             program = mod.generate(Prng(seed), tier)
             program["_seed"] = seed
             program["_index"] = i
+            t_run = time.time()  # measured outside the run; reported only, never logged into a digest
             res = execute_isolated(mod, program)
             rec = {
+                "wall_ms": int((time.time() - t_run) * 1000),
                 "i": i,
                 "seed": seed,
                 "digest": res.get("digest"),
@@ -419,6 +421,7 @@ def parent(prop: str, tier: str, verif_seed: int) -> int:
         configs = {}
         steps_total = 0
         samples = []
+        slowest = max(recs, key=lambda r: r.get("wall_ms", 0)) if recs else {}
         for r in recs:
             for k, v in r.get("faults", {}).items():
                 faults[k] = faults.get(k, 0) + v
@@ -447,6 +450,8 @@ def parent(prop: str, tier: str, verif_seed: int) -> int:
                 "runs_planned": n_runs,
                 "runs_per_hour": int(len(recs) / max(wall, 1e-6) * 3600),
                 "steps_total": steps_total,
+                "slowest_run": {"index": slowest.get("i"), "wall_ms": slowest.get("wall_ms"),
+                                "watchdog_s": int(getattr(mod, "RUN_WALL_S", RUN_WALL_S))},
                 "fault_fired": dict(sorted(faults.items())),
                 "probes": dict(sorted(probes.items())),
                 "distinct_states": len(states),
